@@ -221,6 +221,45 @@ def live_phase(run, model, live_cases, quick):
                         "case: %s\noriginal datagram: %s\nvariant %s\nhandler saw: %s\n" % (ln, dgh, tag, seen))
                 else:
                     st["handler_runs_unprotected_field"] += 1
+    # ---- Observe over time: notifications carry increasing Partial IVs and the application sees
+    # them as Observe values; every notification datagram verifies in the reference to what the
+    # client's handler saw
+    r2 = tie.rng_for(run, "liveobs")
+    olines, ometa = [], []
+    for x, fm, fc in live_cases[:(12 if quick else 120)]:
+        secret, salt, idctx, cid, sid = G.ctx_tokens(x["ctx"])
+        tok = x["req"]["token"] or b"\x01"
+        n = r2.choice([1, 3, 6])
+        sseq = r2.choice([0, 254, 255, 65534, (1 << 24) - 3, (1 << 32) - 2, x["sseq"]])
+        sseq = min(sseq, (1 << 40) - 12)
+        olines.append(" ".join(["liveobs", secret, salt, idctx, cid, sid, str(x["req"]["type"]), G.tok(tok),
+                                str(x["cseq"]), str(sseq), str(n)]))
+        ometa.append((x, tok, sseq, n))
+    oout, _ = vlib.run_lines_robust(ldrv, olines, timeout=600)
+    overify = []
+    for (x, tok, sseq, n), ln, o in zip(ometa, olines, oout):
+        run.cov["evaluations"] += 1
+        m = re.match(r"dgrams=(\S*) app=(.*) responses=(\d+)$", o)
+        if not m:
+            bad("live observe: no answer (%s)" % o[:80], "case: %s\nimpl : %s\n" % (ln, o))
+            continue
+        dgs = [d for d in m.group(1).split(",") if d]
+        seen = re.findall(r"R\[([^\]]*)\]", m.group(2))
+        exp = []
+        for i in range(n + 1):
+            piv = G.uint_bytes(sseq + i) or b"\0"
+            exp.append("o=6:%s p=%s" % (piv[-3:].hex(), ("v%d" % i).encode().hex()))
+        got = [re.sub(r"^.* (o=\S+ p=\S+)$", r"\1", d) for d in seen]
+        if got != exp or len(dgs) != n + 1:
+            bad("live observe: the application sees Observe/payload %s, expected %s (one per notification, Observe = low bytes of the notification's Partial IV)" % (got, exp),
+                "case: %s\nimpl : %s\n" % (ln, o))
+            continue
+        secret, salt, idctx, cid, sid = G.ctx_tokens(x["ctx"])
+        for d, sd in zip(dgs, seen):
+            overify.append((" ".join(["oscun", secret, salt, idctx, cid, sid, "resp", G.tok(tok), str(x["cseq"]), d]),
+                            "OK [" + sd + "]", "notification", ln))
+    st["observe_sequences"] = len(olines)
+    follow = overify + follow
     # what the handler saw for variants of unprotected fields = what the reference hands out
     if follow:
         follow = cap_by_bytes(follow, 400_000 if quick else 3_000_000, tie.rng_for(run, "live"))
@@ -276,7 +315,7 @@ def main(run):
     r = tie.rng_for(run, "c14")
 
     # ---------------------------------------------------------------- exchanges
-    n_ex = 150 if quick else 2500
+    n_ex = 150 if quick else 2000
     cases = []          # (exchange or None, line)
     corpus = vlib.read_corpus("C14")
     for ln in corpus:
@@ -404,8 +443,7 @@ def main(run):
     for ctxt, mode, dgh, info in tamper_jobs:
         for tag, var, must in G.structured_variants(bytes.fromhex(dgh), mode[0] == "req"):
             sv.append((" ".join(["oscun"] + ctxt + mode + [var.hex()]), tag, must, dgh))
-    if quick:
-        sv = sv[:2500]
+    sv = sv[:2500] if quick else sv[:6000]
     sm, sc, _ = tie.run_both(model, drv, [v[0] for v in sv], timeout=3000)
     n_sv_bad = 0
     for k, (ln, tag, must, dgh) in enumerate(sv):
